@@ -78,6 +78,14 @@ SITES = [
     # values: each instantiation has its own outcome
     ('[Expect(Val(`1`)), Val(`True`)]', '[Expect("a" >> `1`), "a" >> `True`]'),
     ('[Expect(Val(`True`)), Val(`1`), Opt(Val(`0`))]', '[Expect("a" >> `True`), "a" >> `1`, Opt("a" >> `0`)]'),
+    ('let xs = Expect("x"*) in let ys = ("x"* |> `tuple`) in [Expect(Val(xs)), Val(ys)]',
+     'let xs = Expect("x"*) in let ys = ("x"* |> `tuple`) in [Expect("a" >> `xs`), "a" >> `ys`]'),
+    ('let ys = Expect("x"* |> `tuple`) in let xs = "x"* in [Expect(Val(ys)), Val(xs)]',
+     'let ys = Expect("x"* |> `tuple`) in let xs = "x"* in [Expect("a" >> `ys`), "a" >> `xs`]'),
+    ('let xs = Expect(["x"*]) in let ys = ["x"* |> `tuple`] in [Expect(Val(xs)), Val(ys)]',
+     'let xs = Expect(["x"*]) in let ys = ["x"* |> `tuple`] in [Expect("a" >> `xs`), "a" >> `ys`]'),
+    ('let ys = Expect(["x"* |> `tuple`]) in let xs = ["x"*] in [Expect(Val(ys)), Val(xs)]',
+     'let ys = Expect(["x"* |> `tuple`]) in let xs = ["x"*] in [Expect("a" >> `ys`), "a" >> `xs`]'),
     ('let p = K in let q = K in [Expect(Val(p)), Val(q)]', 'let p = K in let q = K in [Expect("a" >> `p`), "a" >> `q`]'),
     ('let p = K in let q = K in (Val(p) << "1" | Val(q))', 'let p = K in let q = K in (("a" >> `p`) << "1" | ("a" >> `q`))'),
     ('Wrap(x=/[ab]/, y=/[!?]/)', '/[!?]/ >> /[ab]/ << /[!?]/'),
@@ -88,7 +96,7 @@ BAD_SITES = ['Pair()', 'Pair("a", "b")', 'Pair(z="a")']
 TEXTS = [''.join(p) for L in range(0, 4) for p in itertools.product('ab1', repeat=L)] + \
     ['aa', 'a-a', 'aa-aa', 'b.-b.', 'bb.-b.', 'bcbc-bc', 'babab-ab', '!1!', '1!', '2aa', '211', '1a', '(a)', '((a))', '(a)(b)',
      '(1)(2)', '()', '(())', 'abac', 'ababac', 'ac', 'az', 'ac!', 'ab!', 'a!', 'abab', 'aba', 'ababa', 'abb', 'aaa', 'aaaa', 'aab', 'ab', 'abab', '1a1a', 'ax', 'xxa', 'aq-aq', 'bb', 'bc', 'a.', 'bb-b', 'a1', '!a!', '?b!', 'a-a1',
-     'aabbaa', '11aa11', '1a1aa', '1a1aa1', '1b1ba', '1a1ba', '1ab1aba', '1a1', '!b!', 'aa1', 'aab', 'aa', 'ab', '1111', 'aaaa', 'ab-ab', 'a1-a1', '!b!', 'b!b']
+     'aabbaa', '11aa11', 'xxa', 'xa', 'a', 'xxxa', '1a1aa', '1a1aa1', '1b1ba', '1a1ba', '1ab1aba', '1a1', '!b!', 'aa1', 'aab', 'aa', 'ab', '1111', 'aaaa', 'ab-ab', 'a1-a1', '!b!', 'b!b']
 
 
 def run(R):
